@@ -14,7 +14,9 @@ proofs : lean/PyAbel/Props/C09.lean (Daun degree 0 and the onion-peeling weights
          lean/PyAbel/Props/C09TwoPoint.lean, C09ThreePoint.lean (the two-point and three-point operators applied to any samples are, at
          every pixel incl. the axis row with Dasch's special cases, the inverse Abel integral — in its line-of-sight form
          −(1/π)∫₀^∞ P′(ρ)/ρ dt — of the piecewise-linear / local quadratic interpolant of the samples: J, I0, I1 are integrals of 1/ρ and
-         (ρ − j)/ρ over shells, the operators follow by first- / second-order summation by parts)
+         (ρ − j)/ρ over shells, the operators follow by first- / second-order summation by parts);
+         lean/PyAbel/Props/C09Basex.lean (BASEX: for every k, σ > 0 and distance x ≥ 0, σ times the whole series the code sums for χ_k is
+         the Abel integral of ρ_k(r/σ) — binomial theorem and the Gaussian moments Γ(m + ½)/2; the code's two shoulders are not proved)
 K      : Lean matrices (onionW, twoPointD, threePointD, daun0, daun1, daun2, daun3 incl. the tridiagonal solve) vs the arrays
          the implementation builds;
          the Lean model of _bs_rbasex (driver op rbxbasis) vs rbasex._bs_rbasex, whole matrices, orders 0..8, Rmax up to 150
@@ -53,6 +55,32 @@ def corr_rbasex_basis(ck, tier):
                 ck.disagree("K.rbasex-basis", dict(Rmax=Rmax, order=order, odd=odd, n=n),
                             f"_bs_rbasex({Rmax}, {order}, {odd}) for n={n} differs from the Lean model by "
                             f"{np.abs(M - P).max() if M is not None and M.shape == np.shape(P) else 'shape / bad-op'}")
+
+
+def corr_basex_basis(ck, tier):
+    """the Lean model of _bs_basex (Model/Basex.lean: the series as coded, log-Gamma tables as finite sums, both shoulders) vs the
+    matrices the implementation builds, entry by entry"""
+    from abel import basex
+    from harness.common import drive, f2h, h2arr
+    cases = [(5, 1.0), (12, 1.0), (30, 1.0), (30, 2.0), (31, 0.7), (40, 3.0)] + ([(60, 1.0), (61, 1.3), (45, 0.5)] if tier == "thorough" else [])
+    for n, sigma in cases:
+        ck.count(("K.basex-basis", n, sigma), suite="K.basex-basis")
+        try:
+            M, Mc = quiet(basex._bs_basex, n, sigma, verbose=False)
+            nbf = M.shape[1]
+            out = drive([f"basex M {n} {nbf} {f2h(sigma)}", f"basex Mc {n} {nbf} {f2h(sigma)}"])
+            gm = h2arr(out[0].split()[3:]).reshape(n, nbf)
+            gc = h2arr(out[1].split()[3:]).reshape(n, nbf)
+        except Exception as e:
+            ck.disagree("K.basex-basis", dict(n=n, sigma=sigma), f"{type(e).__name__}: {e}")
+            continue
+        # (the model sums logarithms where the code calls gammaln: relative differences up to ~k²·ε in the exponent)
+        dm = np.abs(gm - M).max() / np.abs(M).max()
+        dc = np.abs(gc - Mc).max()
+        if not (dm <= 1e-9 and dc <= 1e-12):
+            where = np.unravel_index(int(np.argmax(np.abs(gm - M))), M.shape)
+            ck.disagree("K.basex-basis", dict(n=n, sigma=sigma, entry=[int(v) for v in where], M=float(M[where]), model=float(gm[where])),
+                        f"_bs_basex({n}, {sigma}): projected basis differs from the Lean model by {dm:.3g} of its maximum (entry {where}), basis by {dc:.3g}")
 
 
 def abel_quad(f, x, rmax, breaks=()):
@@ -400,17 +428,19 @@ def run(tier):
                               "quadrature-backed only: daun 3, basex (series with ±9(u+2) cut-off), two/three-point (rows i ≥ 1; "
                               "the axis row uses the documented special cases and is compared with the model only)",
                               "scipy.integrate.quad (1e-12) and scipy CubicSpline for the degree-3 interpolant"]
-    ck.cov["unproved_clauses"] = ["basex = its integrals (measured by quadrature; the ±9(u+2) cut-off of the series); two-/three-point: the inverse Abel integral is taken in its line-of-sight form (the substitution x = √(r²+t²) from the textbook form is not formalised); daun degree 3: scipy.linalg.solve_banded is modelled by the Thomas algorithm (proved to solve the system; tied to the code by the entrywise comparison)"]
+    ck.cov["unproved_clauses"] = ["basex: the full series is proved equal to the Abel integral; what the code drops (terms beyond ±9(u+2) of the largest, u > k + 8) is measured by quadrature; two-/three-point: the inverse Abel integral is taken in its line-of-sight form (the substitution x = √(r²+t²) from the textbook form is not formalised); daun degree 3: scipy.linalg.solve_banded is modelled by the Thomas algorithm (proved to solve the system; tied to the code by the entrywise comparison)"]
     ck.cov["source_fingerprint"] = source_fingerprint(["abel/basex.py", "abel/daun.py", "abel/rbasex.py", "abel/dasch.py"])
     ck.proofs("PyAbel.Props.C09")
     ck.proofs("PyAbel.Props.C09Rbasex")
     ck.proofs("PyAbel.Props.C09Daun3")
     ck.proofs("PyAbel.Props.C09TwoPoint")
     ck.proofs("PyAbel.Props.C09ThreePoint")
+    ck.proofs("PyAbel.Props.C09Basex")
     ok, log = ensure_driver()
     if ok:
         corr_operators(ck, tier)
         corr_rbasex_basis(ck, tier)
+        corr_basex_basis(ck, tier)
     else:
         ck.broken.append(dict(kind="proof", module="pyabel_drv", why="driver build failed", log=log[-1500:]))
     oracle(ck, tier, deep or bool(ck.broken))
